@@ -26,6 +26,8 @@ import (
 	ev "verif/engine/evidence"
 	"verif/engine/gosim"
 	"verif/engine/vfsx"
+
+	"github.com/ARM-software/golang-utils/utils/verifrt"
 )
 
 func TestMain(m *testing.M) {
@@ -61,6 +63,7 @@ type scenario struct {
 	KillAt    int  // the holder's process stops before its KillAt-th backend operation (1-based)
 	ShortKill bool // ... or during it, if it is a write (half of the bytes reach the file)
 	Racers    int  // number of racing recoverers (1 or 2)
+	Override  bool // the recoverers call TryLock with stale-lock override instead of IsStale / ReleaseIfStale / TryLock
 	// glitch mode: the holder's GlitchAt-th backend operation after its Mkdir of the lock directory fails once with a
 	// transient error (the backend is left untouched by that operation); everything else is on time
 	GlitchAt int
@@ -84,6 +87,11 @@ type world struct {
 	killed    bool
 	glitchOps int
 	glitched  string
+	// death mode with overriding recoverers: who holds a lock acquired after the recovery (live, beating on time), and
+	// how many staleness evaluations each client made since its Mkdir last said "exists"
+	recHolding map[int]bool
+	releasing  map[int]bool
+	stale      map[int]int
 }
 
 // onTime: the holder's heart beat is never delayed by the schedule (ontime), or only loses one beat to one transient
@@ -152,6 +160,9 @@ func (w *world) afterOp(op *vfsx.Op) {
 	if op.Kind == vfsx.KMkdir && op.Err == nil && op.Path == lockDir {
 		w.dirOwner = c
 	}
+	if op.Kind == vfsx.KMkdir && op.Err != nil && op.Path == lockDir {
+		w.stale[c] = 0
+	}
 	switch op.Kind {
 	case vfsx.KStat, vfsx.KLstat, vfsx.KFStat:
 		if op.Err == nil && (op.Path == hbFile || op.Path == lockDir) {
@@ -161,6 +172,16 @@ func (w *world) afterOp(op *vfsx.Op) {
 		if op.Err == nil && op.Path == lockDir {
 			owner := w.dirOwner
 			w.dirOwner = -1
+			if owner > 0 && owner != c && w.recHolding[owner] {
+				// a recoverer that acquired the lock after the holder's death is alive and its heart beat on time:
+				// its lock is a live lock like any other
+				site := fmt.Sprintf("override-release:rechecks=%d", w.stale[c]-1)
+				if w.releasing[c] {
+					site = "Unlock" // the remover is releasing a lock it acquired itself earlier
+				}
+				w.x.Violate("live-lock-removed:mode=death:victim=recoverer:site="+site, "recoverer %d removed the lock directory that recoverer %d created and holds (heart beat on time)", c, owner)
+				return
+			}
 			if owner != 0 || !w.holding || w.lost {
 				return
 			}
@@ -192,8 +213,13 @@ func newLock(backend afero.Fs, shared *vfsx.Shared, client int, override bool) f
 
 func body(sc scenario) func(x *gosim.Exec) {
 	return func(x *gosim.Exec) {
-		w := &world{x: x, sc: sc, silence: map[int]time.Duration{}, dead: make(chan struct{}), dirOwner: -1, outcome: make([]string, 1+len(sc.Observers)+sc.Racers)}
+		w := &world{x: x, sc: sc, recHolding: map[int]bool{}, releasing: map[int]bool{}, stale: map[int]int{}, silence: map[int]time.Duration{}, dead: make(chan struct{}), dirOwner: -1, outcome: make([]string, 1+len(sc.Observers)+sc.Racers)}
 		x.User = w
+		verifrt.EventHook = func(name string) {
+			if th := x.Current(); th != nil && name == "IsStale" {
+				w.stale[th.Client]++
+			}
+		}
 		backend := newBackend(sc.Backend)
 		w.backend = backend
 		_ = backend.MkdirAll(lockRoot, 0o755)
@@ -298,6 +324,29 @@ func body(sc scenario) func(x *gosim.Exec) {
 				defer func() { doneRec <- r }()
 				<-w.dead
 				time.Sleep(2*period + 2*time.Millisecond - time.Since(w.deathAt))
+				if sc.Override {
+					l := newLock(backend, shared, c, true)
+					err := l.TryLock(x.Ctx())
+					x.Note("rec%d TryLock-override at death+%v = %v", r, time.Since(w.deathAt), err)
+					results[r] = err
+					if sc.Racers == 1 && err != nil {
+						x.Violate("dead-lock-not-recoverable:via=override", "TryLock with stale-lock override, two periods after the holder's death: %v", err)
+						return
+					}
+					if err != nil {
+						w.outcome[c] = "f"
+						return
+					}
+					w.outcome[c] = "A"
+					w.recHolding[c] = true
+					time.Sleep(period + period/2)
+					x.Gate(c, fmt.Sprintf("rec%d: begin release", r))
+					w.recHolding[c] = false
+					w.releasing[c] = true
+					_ = l.Unlock(x.Ctx())
+					w.releasing[c] = false
+					return
+				}
 				probe := newLock(backend, shared, c, false)
 				stale := probe.IsStale()
 				x.Note("rec%d at death+%v: IsStale=%v", r, time.Since(w.deathAt), stale)
@@ -428,6 +477,17 @@ func scenarios() []scenario {
 			b = 2
 		}
 		out = append(out, scenario{Name: fmt.Sprintf("death/before-op-%02d/2 racing recoverers", k), Mode: "death", HoldBeats: 4, KillAt: k, Racers: 2, Bound: b})
+	}
+	// (d) the recoverers use stale-lock override
+	for _, k := range []int{2, 3, 5, 8, 13} {
+		out = append(out, scenario{Name: fmt.Sprintf("death/before-op-%02d/override recoverer", k), Mode: "death", HoldBeats: 4, KillAt: k, Racers: 1, Override: true, Bound: 0})
+	}
+	for _, k := range []int{3, 8} {
+		b := 1
+		if ev.Thorough() {
+			b = 2
+		}
+		out = append(out, scenario{Name: fmt.Sprintf("death/before-op-%02d/2 racing override recoverers", k), Mode: "death", HoldBeats: 4, KillAt: k, Racers: 2, Override: true, Bound: b})
 	}
 	if f := os.Getenv("VERIF_SCENARIO"); f != "" {
 		var sel []scenario
